@@ -154,6 +154,7 @@ Section WithOracles.
   Definition class_is_fast (c : pystr) : bool :=
     match find_tclass e c with Some cd => t_fast cd | None => false end.
 
+  (* [fc c v]: ClassReference.serialize of a field declared with class c, applied to v *)
   Fixpoint fast_val (fc : pystr -> pyval -> res pyval) (tf : tfield) (v : pyval) {struct tf} : res pyval :=
     match tf with
     | TLeaf l => fast_leaf l v
@@ -162,32 +163,31 @@ Section WithOracles.
         | PList l =>
             match item with
             | TLeaf (LSer _ true) => Ok v          (* Array.serialize: items that are Numbers are returned as they are *)
-            | _ =>
-                (* Array.serialize reads items._ty.serialize before iterating: AttributeError without the mix-in,
-                   even for an empty list (reachable through Optional[Array[C]], which create_serializer does not check) *)
-                _ <- match item with
-                     | TRef c => if class_is_fast c then Ok tt else Raise AttributeError
-                     | _ => Ok tt
-                     end ;;
-                r <- mapM (fast_val fc item) l ;; Ok (PList r)
+            | _ => r <- mapM (fast_val fc item) l ;; Ok (PList r)     (* items.serialize, element by element *)
             end
         | _ => Raise Unmodelled
         end
     | TSet item =>
         match v with
-        | PSet _ l =>
-            (* Set.serialize reads items._ty.serialize before iterating: AttributeError without the mix-in *)
-            _ <- match item with
-                 | TRef c => if class_is_fast c then Ok tt else Raise AttributeError
-                 | _ => Ok tt
-                 end ;;
-            r <- mapM (fast_val fc item) l ;; Ok (PList r)
+        | PSet _ l => r <- mapM (fast_val fc item) l ;; Ok (PList r)
         | _ => Raise Unmodelled
         end
     | TRef c => fc c v
     | TOpt _ f => fast_val fc f v
     | TUnion ls => match non_none ls with [l] => fast_leaf l v | _ => Raise Unmodelled end
     | TOther id _ => ofast id v
+    end.
+
+  (* ClassReference.serialize(value) = getattr(value.__class__, "serialize", None)(value): the serializer of the
+     value's OWN class, whatever class the field was declared with (a class without the mix-in has no serialize:
+     None is called, TypeError) *)
+  Definition by_class (ser : pystr -> pyval -> res pyval) (v : pyval) : res pyval :=
+    match v with
+    | PStruct rn _ => match find_tclass e rn with
+                      | Some cd => if t_fast cd then ser rn v else Raise TypeError
+                      | None => Raise Unmodelled
+                      end
+    | _ => Raise Unmodelled
     end.
 
   (* _verify_is_fast_serializable + the checks of _get_serialize, for one field *)
@@ -259,7 +259,7 @@ Section WithOracles.
         Ok ((own_key (t_mapper c) (f_name fd), w) :: r)
     end.
 
-  (* x.serialize() after create_serializer(cls, compact, serialize_none); nested classes use the
+  (* x.serialize() after create_serializer(cls, compact, serialize_none); the classes of nested instances use the
      serializer created for them with the default flags *)
   Fixpoint fast_ser (fuel : nat) (sn compact : bool) (cn : pystr) (v : pyval) : res pyval :=
     match fuel with
@@ -268,12 +268,8 @@ Section WithOracles.
         match find_tclass e cn, v with
         | Some c, PStruct _ a =>
             _ <- match t_mapper c with MapList => Raise Unmodelled | _ => Ok tt end ;;
-            (* a referenced class without the mix-in has no serialize method: AttributeError / TypeError *)
-            r <- fast_fields (fast_val (fun c' x => match find_tclass e c' with
-                                                    | Some cd => if t_fast cd then fast_ser n false false c' x
-                                                                 else Raise TypeError
-                                                    | None => Raise Unmodelled
-                                                    end)) c a (t_fields c) ;;
+            (* a nested structure is serialized by the serializer of its own class *)
+            r <- fast_fields (fast_val (fun _ x => by_class (fast_ser n false false) x)) c a (t_fields c) ;;
             let r' := if sn then r else drop_none r in
             match dict_of r' with
             | PDict [(_, x)] =>
